@@ -1055,7 +1055,7 @@ func generate(o *common.Opts, res *common.Result, m *common.Model) {
 	rng := o.Rand()
 	nScen, nRand, randLen := 15, 40, 60
 	if o.Thorough() {
-		nScen, nRand, randLen = 150, 600, 90
+		nScen, nRand, randLen = 300, 3000, 100
 	}
 	runCase := func(name string, n int, body func(g *gen)) {
 		seed := rng.Int63()
